@@ -35,7 +35,11 @@ where
       let subscription = Arc::clone(&self.subscription);
       self.subject.set_on_unsubscribe(move |count| {
         if count == 0 {
-          if let Some(sbsc) = &*subscription.read().unwrap() {
+          // disconnect: the connection is taken out of its slot first, so that no
+          // lock is held while the source is unsubscribed and the next first
+          // subscriber connects again
+          let sbsc = subscription.write().unwrap().take();
+          if let Some(sbsc) = sbsc {
             sbsc.unsubscribe();
           }
         }
@@ -53,22 +57,38 @@ where
         let sbj_error = subject.clone();
         let sbj_complete = subject.clone();
 
-        let mut subscription = subscription.write().unwrap();
-        if subscription.is_some() {
-          return;
-        }
-
-        *subscription = Some(source.subscribe(
+        let sbsc_error = Arc::clone(&subscription);
+        let sbsc_complete = Arc::clone(&subscription);
+        let observer = Observer::new(
           move |x| {
             sbj_next.next(x);
           },
           move |e| {
+            // the connection is over: the next first subscriber connects again
+            sbsc_error.write().unwrap().take();
             sbj_error.error(e);
           },
           move || {
+            sbsc_complete.write().unwrap().take();
             sbj_complete.complete();
           },
-        ));
+        );
+        {
+          let mut subscription = subscription.write().unwrap();
+          if subscription.is_some() {
+            return;
+          }
+          // the connection is recorded before the source runs, and the source is
+          // subscribed with no lock held: a synchronous source may make the last
+          // subscriber leave (hence disconnect) from inside its subscribe
+          let unsub_observer = observer.clone();
+          let issub_observer = observer.clone();
+          *subscription = Some(Subscription::new(
+            move || unsub_observer.unsubscribe(),
+            move || issub_observer.is_subscribed(),
+          ));
+        }
+        source.inner_subscribe(observer);
       }
     });
   }
